@@ -125,6 +125,9 @@ type NodeCase struct {
 	// PoolPrims (optional): the NodePool's own requirements per key, only used to attribute an affinity mismatch to the
 	// known presence-loss defect of the requirement representation
 	PoolPrims map[string][]Prim
+	// PresenceLossy re-judges node affinity the way the (known-defective) requirement representation does; it is only
+	// used to attribute a rejection to that known root cause
+	PresenceLossy bool
 	// Expected are pods that will still start there (daemons not running yet): they count for resources only
 	Expected []*corev1.Pod
 	// VolumeCheck (optional) returns a rejection when the pod's volumes cannot be used on this node.
@@ -134,7 +137,11 @@ type NodeCase struct {
 // Admissible checks every placed pod against the node under Kubernetes scheduling rules for required constraints.
 func (nc NodeCase) Admissible() *Reject {
 	for _, p := range nc.Placed {
-		if !MatchesNodeAffinity(p, nc.Node) {
+		if nc.PresenceLossy {
+			if !MatchesNodeAffinity(p, nc.Node) && !MatchesUnderPresenceLoss(p, nc.Node.Labels, nc.PoolPrims) {
+				return &Reject{"affinity", "no match even under presence loss"}
+			}
+		} else if !MatchesNodeAffinity(p, nc.Node) {
 			rule := "affinity"
 			if MatchesUnderPresenceLoss(p, nc.Node.Labels, nc.PoolPrims) {
 				rule = "affinity:presence-lost"
